@@ -7,10 +7,11 @@ import os, sys, json, random, subprocess, itertools
 import vlib
 sys.path.insert(0, os.path.join(vlib.VERIF, 'tools', 'translate'))
 
-LEAN_TARGETS = ['CvxVerif.Gen.C19Safe', 'CvxVerif.Gen.C19SafeL', 'CvxVerif.Gen.C19SafeB', 'CvxVerif.Props.C19']
-MODEL_FILES = ['CvxVerif.Model.CWrap', 'CvxVerif.Gen.BlasWrap', 'CvxVerif.Gen.LapackWrap', 'CvxVerif.Gen.BaseWrap']
+LEAN_TARGETS = ['CvxVerif.Gen.C19Safe', 'CvxVerif.Gen.C19SafeL', 'CvxVerif.Gen.C19SafeB', 'CvxVerif.Props.C19', 'CvxVerif.Props.C19Calls']
+MODEL_FILES = ['CvxVerif.Model.CWrap', 'CvxVerif.Gen.BlasWrap', 'CvxVerif.Gen.LapackWrap', 'CvxVerif.Gen.BaseWrap', 'CvxVerif.Gen.CallArgs']
 LEVEL = 'proof'
-TRUSTED = ['translator tools/translate/cwrap2lean.py (C tokenizer/parser for the argument-checking prefix of blas.c and lapack.c - the statements '
+TRUSTED = ['translator tools/translate/ccall2lean.py (regular-expression scan of blas.c / lapack.c for pointer arguments MAT_BUF<t>(N) + e -> Gen/CallArgs.lean; pointer arguments of another form are not seen)',
+           'translator tools/translate/cwrap2lean.py (C tokenizer/parser for the argument-checking prefix of blas.c and lapack.c - the statements '
            'between the argument parse and the work-space allocation / type switch; CPS emission; proof scripts) -- validated by running every '
            'generated decision against the real wrapper',
            'hand-written footprint specifications tools/translate/footprints.py, footprints_lapack.py (what the reference BLAS / LAPACK routine touches, '
@@ -37,6 +38,10 @@ def translate(ctx):
         ctx.table_base = cwrap2lean.gen_base_safety(); cwrap2lean.gen_base_driver(ctx.table_base)
     except Exception as e:
         return ['cwrap2lean (base.c): %s: %s' % (type(e).__name__, e)]
+    try:
+        import ccall2lean; ccall2lean.gen_callargs()
+    except Exception as e:
+        return ['ccall2lean.gen_callargs: %s: %s' % (type(e).__name__, e)]
     from corr import c19_lapack
     return c19_lapack.translate(ctx)
 
